@@ -321,3 +321,22 @@ package git
 //@   modifies everything
 
 //@ property C05: ParseBatchHeader (*Repository).NewBatchObjectIter$2
+
+// ---------------------------------------------------------------- iterators (C10)
+// When the stream ends, the verdict of the whole pipeline (Wait()) is what the
+// caller gets — it cannot be dropped; an item is never accompanied by an error.
+//@ func (*ObjectIter).Next
+//@   pure
+//@   call 0 Pipeline).Wait as w
+//@   ensures result1 ==> result2 == nil && !w_reached
+//@   ensures !result1 ==> w_reached && result2 == w
+//@ func (*BatchObjectIter).Next
+//@   pure
+//@   call 0 Pipeline).Wait as w
+//@   ensures result1 ==> result2 == nil && !w_reached
+//@   ensures !result1 ==> w_reached && result2 == w
+//@ func (*ReferenceIter).Next
+//@   pure
+//@   ensures result1 ==> result2 == nil
+
+//@ property C10: (*ObjectIter).Next (*BatchObjectIter).Next (*ReferenceIter).Next
